@@ -159,9 +159,9 @@ def run(ck):
     crystalStars.zeroclean = _fastclean
     ck.note("crystalStars.zeroclean replaced by its vectorised equivalent in this process (expansions are not observed by C26)")
     rng = ck.rng
-    ncrys = ck.n(11, 60)
-    vm_max_states = ck.n(140, 420)          # VacancyMediated construction cost grows fast
-    coq_cost_budget = ck.n(1.2e8, 1.5e9)      # sum of transitions * |G| * states sent to the model
+    ncrys = ck.n(11, 36)
+    vm_max_states = ck.n(140, 320)          # VacancyMediated construction cost grows fast
+    coq_cost_budget = ck.n(1.2e8, 6e8)      # sum of transitions * |G| * states sent to the model
     coq_case_max = ck.n(3e7, 2.5e8)
     defs, runs, meta = [], [], []
     spent = 0.
